@@ -4,6 +4,7 @@ mod corpus;
 mod diskfault;
 mod engines;
 mod fdcap;
+mod modelfault;
 mod orch;
 mod panics;
 mod report;
